@@ -40,6 +40,50 @@ CHECKS = {
          "Raw programs with dangling branch/call/return/hint targets, non-entry blocks shared between functions, duplicated block/def/jmp ids, calls to no_return symbols and to functions without return, empty functions and recursion are normalized by normalize_basic (must not panic); invariants: unique ids, original entry block first, all targets exist and intraprocedural ones lie in the same function, non-returning calls return to the caller's artificial sink, CFG construction succeeds and equals the specification. Floors on each irregularity kind.",
          "Trusted: invariant predicates in checks/c09.rs; generator never duplicates function ids or function entry blocks (excluded by the property). Details: notes/C09.md.",
          "DESIGN.md §3 C09"),
+ "C03": ("exhaustive enumeration (all 257^2 bitvector-domain pairs, taint values, all pairs of a reduced 1-byte interval universe) + proptest tapes for wider intervals, pointer/value sets, maps and memory regions; oracle = own concretization (membership predicates)",
+         "For pairs of abstract values of every kind (BitvectorDomain, IntervalDomain with widening hints/delays, DataDomain over both, Taint, DomainMap under Union/Intersect/MergeTop, MemRegion) the merge must contain every concrete member of either input (members enumerated at 1 byte, sampled above), merging a value with itself or with something already absorbed must not change the represented set (both argument orders, also after a further merge), merge_with must agree with merge. All four widening branches are labelled with floors.",
+         "Trusted: the concretization functions in checks/c03.rs written from the type documentation (widening hints are not part of the value set). Details: notes/C03.md.",
+         "DESIGN.md §3 C03"),
+ "C05": ("model-based (stateful) testing: operation histories decoded from tapes, reference cell store compared after every step; failing histories additionally delta-debugged",
+         "Histories of up to 40 operations (writes through add/insert_at_byte_index, removals, top-writes, interval top-marking, offset shifts, clear_top_values, merges, clones, reads) over two regions and two cell types are applied to MemRegion and to a plain reference store (overlap decided by scanning all cells); after every step: no overlapping cells, no top cells, iter() equals the model, reads at all offsets -26..26 x sizes agree. Floors on histories with partial overlaps and merges after divergence.",
+         "Trusted: the reference store semantics derived from the property statement and method docs. Details: notes/C05.md.",
+         "DESIGN.md §3 C05"),
+ "C06": ("bounded language enumeration: exhaustive over character-inclusion pairs, single-brick pairs and all brick lists of <= 3 bricks, plus proptest tapes for list pairs; oracle = own DP matcher over all strings up to length 7",
+         "normalize must preserve the language (all 255 strings over {a,b} up to length 7), append must contain every concatenation, merge and widen every member of either input; CharacterInclusionDomain exhaustively over all (certain, possible) pairs incl. Top. Non-returning calls are detected by a heartbeat monitor (45 s; normal duration microseconds).",
+         "Trusted: the DP matcher's reading of the brick semantics ([S]^{m,M}, u32::MAX = unbounded). Out of scope by the quantifier: two adjacent unbounded bricks. Details: notes/C06.md.",
+         "DESIGN.md §3 C06"),
+ "C13": ("differential/abstract-interpretation soundness testing: generated loop-and-branch functions analysed by the real pipeline, executed from generated initial states by an independent interpreter; oracle = concretization membership at every block arrival (proptest tapes, shrinking)",
+         "Single-function programs (register arithmetic, flags, comparisons, stack loads/stores at constant offsets through RSP/RBP, SP adjustments, small-constant addresses; no calls) go through normalize, CFG, function signatures and pointer inference; 8 concrete runs each; at every block arrival the block must have an analysis state and each register's concrete value must be a member of its abstract value (own interval membership, parameter identifiers read as entry values, unknown identifiers lenient). Unstabilized fixpoints are skipped (premise) and counted.",
+         "Trusted: irinterp/refsem, dom.rs membership; aliasing initial states (violating the analysis' documented distinct-identifier assumption) are classified separately.",
+         "DESIGN.md §3 C13"),
+ "C15": ("generated programs; reference = exact exploration of the finite product (block, tainted-variable set) by the rules of the property; equality of reported and expected source sets (proptest tapes, shrinking)",
+         "Programs with allocation calls, copies/arithmetic over a taint-capable register pool (callee-saved register, temporary, flags), overwrites, loads/stores with possibly dependent addresses, checks on dependent and independent conditions, loops, extern/indirect/internal calls and returns run through the real pipeline and cwe_476::check_cwe; the set of reported source calls must equal the specification's (reported sink must be a reachable sink); on programs with a mixed conditional block only reported => expected is required and a miss is the known class C15:mixed-condition-node.",
+         "Trusted: the exploration in checks/c15.rs; dependence is syntactic on the normalized program; store values come from a clean pool so the value flows through registers only (premise of the property).",
+         "DESIGN.md §3 C15"),
+ "C16": ("generated programs x configurations; reference = set comprehensions over call sites and symbol tables; multiset equality of structured warning fields (proptest tapes, shrinking)",
+         "Random extern tables, call sites and configurations; CWE676/CWE782/CWE426/CWE332 module functions must return exactly the warnings the comprehension predicts (addresses, tids, symbols, other).",
+         "Trusted: the comprehensions in checks/c16.rs (from the module docs). Details: notes/C16.md.",
+         "DESIGN.md §3 C16"),
+ "C17": ("generated CFG-rich functions x configurations; reference = independent reachability search on the IR (proptest tapes, shrinking)",
+         "CWE367 and CWE243 module functions must report exactly the (check,use) pairs / chroot calls the property's path specification yields and must return normally on every generated program (incl. calls without return site).",
+         "Trusted: the reachability search in checks/c17.rs. Details: notes/C17.md.",
+         "DESIGN.md §3 C17"),
+ "C18": ("generated constant-computing call blocks; reference = independent concrete block evaluator (refsem) + threshold predicate (proptest tapes, shrinking)",
+         "One block per case computes the parameter(s) of umask / a size-taking function from constants through arithmetic, copies, stack stores and loads; CWE560 must warn iff v > 0o177 and v != 0o777, CWE467 iff some parameter equals the pointer size.",
+         "Trusted: the block evaluator; values passing a signed overflow are compared one-sidedly (Interval documents precision loss there). Details: notes/C18.md.",
+         "DESIGN.md §3 C18"),
+ "C19": ("exhaustive boundary enumeration per generated segment layout (every address around every segment x sizes x all query functions) + generated ELF/PE/bare-metal inputs; reference = byte-array model",
+         "Random layouts of disjoint segments (adjacent, gap 1, far; shuffled; both endiannesses) and every address from base-2 to base+len+2: read, read_string_until_null_terminator, is_global_memory_address, is_address_writeable, interval queries, get_ro_data_pointer_at_address, new_from_bare_metal and the MemorySegment constructors must agree with a byte-array model.",
+         "Trusted: the byte-array model in checks/c19.rs and its ELF/PE writers. Details: notes/C19.md.",
+         "DESIGN.md §3 C19"),
+ "C20": ("grammar-based generation with round-trip oracle (the generating derivation) + exhaustive grid of 8100 small format strings (proptest tapes, shrinking)",
+         "Format strings derived from the supported grammar (literals deliberately containing conversion letters and digits, %% escapes, flags, widths, precisions, all conversion and length forms) x three datatype tables; parse_format_string_parameters must return one (type,size) per argument-consuming conversion in order, and Err iff a long/long long/long double form occurs.",
+         "Trusted: the documented conversion-to-type table copied into checks/c20.rs. Details: notes/C20.md.",
+         "DESIGN.md §3 C20"),
+ "C25": ("history-based testing with real threads: tape-decoded message scripts and seeded yields/sleeps; oracle = history model built from happens-before facts the harness observed itself",
+         "1..4 sender threads with scripts of logs (with/without location) and warnings, a subset joined before collect(); every message whose send completed before collection must be returned, address-less logs keep per-thread order, per address exactly the last warning (recorded order in sequential mode, some thread's last in free-running mode) is kept, nothing fabricated or duplicated. Schedules are sampled (OS scheduler), not enumerated.",
+         "Trusted: the history model; interleavings inside crossbeam-channel are not controlled (no loom/shuttle build of the channel available). Details: notes/C25.md.",
+         "DESIGN.md §3 C25"),
 }
 
 NOT_APPLICABLE = {}
